@@ -463,6 +463,9 @@ def obligations(tier):
         obs.append(Obligation(f'order-independence-memory-5x5-{n}colours', mk_order('memory', 5, 5, n), dict(function='memory', colours=n)))
         if n <= 3:  # 4 colours x 4! x 4! orders x all placements does not finish
             obs.append(Obligation(f'order-independence-memory_rooms-4x4-{n}colours', mk_order('memory_rooms', 4, 4, n), dict(function='memory_rooms', colours=n)))
+    # interleaving with other environments must not change a deterministic answer (memo tables shared between environments)
+    from .c03 import h_history_dijkstra
+    obs.append(Obligation('interleaved-questions-shortest-path-reward', h_history_dijkstra, dict(reward='getting_closer_shortest_path', between='0..2 questions of other environments (other exit, other layout, 12 layouts, ray fans)')))
     obs.append(Obligation('side-seeded-trajectories', side_trajectories(2 if q else 5, 30 if q else 60), kind='concrete'))
     cfgs = ['gv_memory.5x5.yaml', 'gv_memory_four_rooms.7x7.yaml', 'gv_keydoor.5x5.yaml', 'gv_dynamic_obstacles.5x5.yaml']
     obs.append(Obligation('side-hashseed', side_hashseed(cfgs if q else cfgs + ['gv_memory.9x9.yaml', 'gv_memory_nine_rooms.10x10.yaml'], [0, 2] if q else [0, 1, 2], 8), kind='concrete'))
